@@ -26,6 +26,10 @@ def run(ctx):
     rep = ctx.report
     fx = ctx.fx
     roles = Roles(fx)
+    # first: the snapshot published is `node_state.clone()` and the maps are keyed by the id — both must be the structural ones
+    from .. import identity
+    identity.check(ctx, rep, "C13", "R13.5", ["id-eq", "id-ord", "id-clone", "ns-clone"])
+    identity.check_keys(ctx, rep, "C13", "R13.6", ["watch", "fd-sets", "cluster"])
     try:
         nl = models.NodesLiveness(fx, roles)
     except ModelError as e:
@@ -36,9 +40,6 @@ def run(ctx):
     r13_2(ctx, rep, roles, nl)
     r13_3(ctx, rep, roles, nl)
     r13_4(ctx, rep, roles)
-    from .. import identity
-    identity.check(ctx, rep, "C13", "R13.5", ["id-eq", "id-ord", "id-clone", "ns-clone"])
-    identity.check_keys(ctx, rep, "C13", "R13.6", ["watch", "fd-sets", "cluster"])
 
 
 def field_users(fx, adt, name):
